@@ -81,11 +81,32 @@ Example backticked_period_not_a_fixed_point :
   codes_of_res (parse_model_nocheck "Y[0] = X[2001]") = ["self._Y[t] = self._X[t+2001]"].
 Proof. vm_compute. split; reflexivity. Qed.
 
-(* another admissible layout of the same equation: blanks inside the right-hand index brackets, leads without "+" *)
-Definition ex_lay : layout := fun name i => if String.eqb name "C" then ("", "", false) else (" ", "  ", false).
+(* another admissible layout of the same equation: blanks inside the right-hand index brackets, leads without "+", [0] left out *)
+Definition ex_lay : layout := fun name i =>
+  if String.eqb name "C" then mkLay SVar (Some ("", "", false))
+  else if String.eqb name "alpha_1" then mkLay SVar None
+  else mkLay SVar (Some (" ", "  ", false)).
 Example ex_lay_ok : dq_ok ex_lay ex_fix_q = true /\
-  denorm_text ex_lay ex_fix_q = "C[1] = (alpha_1[ 0  ] * max(YD[ 2  ], H[ -1  ]) if X[ '2000'  ] <= 0 else `np.pi *  2`)".
-Proof. vm_compute. split; reflexivity. Qed.
+  denorm_text ex_lay ex_fix_q = "C[1] = (alpha_1 * max(YD[ 2  ], H[ -1  ]) if X[ '2000'  ] <= 0 else `np.pi *  2`)" /\
+  lneq_terms ex_lay ex_fix_q = lneq_terms canon ex_fix_q.
+Proof. vm_compute. repeat split; reflexivity. Qed.
+
+(* parameters and errors: alpha_1 written { alpha_1 } (blanks inside the braces, [0] left out), H written < H >[ -1] *)
+Definition ex_lay_src : layout := fun name i =>
+  if String.eqb name "alpha_1" then mkLay (SPar " " "  ") None
+  else if String.eqb name "H" then mkLay (SErr " " " ") (Some (" ", "", true))
+  else mkLay SVar (Some ("", "", true)).
+Definition ex_lay_src_compact : layout := fun name i =>
+  if String.eqb name "alpha_1" then mkLay (SPar "" "") (Some ("", "", true))
+  else if String.eqb name "H" then mkLay (SErr "" "") (Some ("", "", true))
+  else mkLay SVar (Some ("", "", true)).
+Example ex_lay_src_ok :
+  dq_ok ex_lay_src ex_fix_q = true /\ dq_ok ex_lay_src_compact ex_fix_q = true /\
+  denorm_text ex_lay_src ex_fix_q = "C[+1] = ({ alpha_1  } * max(YD[+2], < H >[ -1]) if X['2000'] <= 0 else `np.pi *  2`)" /\
+  denorm_text ex_lay_src_compact ex_fix_q = "C[+1] = ({alpha_1}[0] * max(YD[+2], <H>[-1]) if X['2000'] <= 0 else `np.pi *  2`)" /\
+  lneq_terms ex_lay_src ex_fix_q = lneq_terms ex_lay_src_compact ex_fix_q /\
+  lneq_terms ex_lay_src ex_fix_q <> lneq_terms canon ex_fix_q.
+Proof. vm_compute. repeat split; try reflexivity. discriminate. Qed.
 
 (* hypotheses of the script-level comment / blank-line theorems *)
 Example ex_comment_ok : comment_ok "Y = X" "  " " trailing # twice" = true /\ comment_ok "Y = X " "" "c" = false /\ comment_ok "Y = '#'" " " "c" = false.
@@ -94,3 +115,40 @@ Example ex_blank_between :
   ex_s1 <> "" /\ ends_sep ex_s1 = false /\ final_state s0 (model_lines ex_s1) = Some s0 /\ clean s0 = true /\
   nosep "   # only a comment" = true /\ is_blank (strip_comments "   # only a comment") = true /\ nosep "" = true /\ is_blank (strip_comments "") = true.
 Proof. split; [discriminate|]. vm_compute. repeat split; reflexivity. Qed.
+
+(* reordering statements: both hypotheses sets hold for ex_s1 / ex_s2, and the two orders really list the symbols differently *)
+Definition name_types (r : pres (list symbol)) : list (option string * ptype) :=
+  match r with POk l => map (fun s => (sname s, stype s)) l | _ => [] end.
+Example ex_permute :
+  final_state s0 (model_lines ex_s2) = Some s0 /\ ends_sep ex_s2 = false /\ ex_s2 <> "" /\
+  name_types (parse_model_nocheck (ex_s1 ++ nl_s ++ ex_s2))
+    = [(Some "Y", TEndogenous); (Some "X", TExogenous); (Some "Z", TExogenous); (Some "W", TEndogenous); (Some "V", TEndogenous); (Some "a", TParameter)] /\
+  name_types (parse_model_nocheck (ex_s2 ++ nl_s ++ ex_s1))
+    = [(Some "W", TEndogenous); (Some "Y", TEndogenous); (Some "V", TEndogenous); (Some "a", TParameter); (Some "X", TExogenous); (Some "Z", TExogenous)].
+Proof. split; [vm_compute; reflexivity|]. split; [reflexivity|]. split; [discriminate|]. vm_compute. split; reflexivity. Qed.
+
+(* the same equation written with runs of blanks and tabs, blanks after "(" and before ")" *)
+Definition tab : ascii := ascii_of_nat 9.
+Definition ex_ws_q : neq :=
+  mkNeq [NTerm "C" (IInt 1%Z); NChr " "; NChr tab; NChr " "]
+        [NChr tab; NChr "("; NChr " "; NChr " "; NTerm "alpha_1" (IInt 0%Z); NChr " "; NChr "*"; NChr tab; NChr " "; NFunc "max"; NChr "("; NChr " ";
+         NTerm "YD" (IInt 2%Z); NChr ","; NChr " "; NChr " "; NChr " ";
+         NTerm "H" (IInt (-1)%Z); NChr tab; NChr ")"; NChr " "; NKw "if"; NChr " "; NChr " "; NTerm "X" (IStr "'2000'"); NChr " "; NChr "<"; NChr "="; NChr " "; NChr "0"; NChr tab;
+         NKw "else"; NChr " "; NVerb "np.pi *  2"; NChr " "; NChr ")"].
+Example ex_ws_layout :
+  dq_ok_ws ex_lay ex_ws_q = true /\ dq_ok_ws canon ex_fix_q = true /\
+  nrm (whole_toks ex_ws_q) = nrm (whole_toks ex_fix_q) /\ lneq_terms ex_lay ex_ws_q = lneq_terms canon ex_fix_q /\
+  nrm (whole_toks ex_fix_q) = whole_toks ex_fix_q /\ denorm_text ex_lay ex_ws_q <> denorm_text canon ex_fix_q.
+Proof. vm_compute. repeat split; try reflexivity. discriminate. Qed.
+
+(* the same equation spread over three lines inside its round brackets (continuation lines), with indentation *)
+Definition ex_cont_q : neq :=
+  mkNeq [NTerm "C" (IInt 1%Z); NChr " "]
+        [NChr " "; NChr "("; NTerm "alpha_1" (IInt 0%Z); NChr " "; NChr "*"; NChr nl; NChr " "; NChr " "; NChr " "; NFunc "max"; NChr "("; NTerm "YD" (IInt 2%Z); NChr ",";
+         NChr nl; NChr tab; NTerm "H" (IInt (-1)%Z); NChr ")"; NChr " "; NKw "if"; NChr " "; NTerm "X" (IStr "'2000'"); NChr " "; NChr "<"; NChr "="; NChr " "; NChr "0"; NChr nl;
+         NKw "else"; NChr " "; NVerb "np.pi *  2"; NChr nl; NChr ")"].
+Example ex_cont_layout :
+  dq_ok_ws canon ex_cont_q = true /\
+  nrm (whole_toks ex_cont_q) = whole_toks ex_fix_q /\ lneq_terms canon ex_cont_q = lneq_terms canon ex_fix_q /\
+  has_nl (denorm_text canon ex_cont_q) = true.
+Proof. vm_compute. repeat split; reflexivity. Qed.
